@@ -327,6 +327,18 @@ fn format(opt: opt::Opt) -> Result<i32> {
 
     debug!("creating a pool with {} threads", opt.num_threads);
     let pool = ThreadPool::new(std::cmp::max(opt.num_threads, 2)); // Use a minimum of 2 threads, because we need at least one output reader as well as a formatter
+
+    // Wait for in-flight jobs on every way out of this function, including an early return with
+    // `?` from the loop below. Otherwise `main` exits the process while a worker may be half way
+    // through `fs::write`, leaving a truncated file behind.
+    // Declared before the channel so that `tx` is dropped first and the output thread can finish.
+    struct JoinOnDrop(ThreadPool);
+    impl Drop for JoinOnDrop {
+        fn drop(&mut self) {
+            self.0.join();
+        }
+    }
+    let _join_on_drop = JoinOnDrop(pool.clone());
     let (tx, rx) = crossbeam_channel::unbounded::<Result<_>>();
     let output_format = opt.output_format;
     let opt = Arc::new(opt);
